@@ -16,7 +16,8 @@ PB_FORK = [[], [1], [1]]
 PB = {'PB_Fork': PB_FORK, 'PB_Tree4': [[], [1], [1], [2]]}
 SB['SB_Three'] = {'0': [], '1': [], '2': [1], '3': []}
 SB['SB_Empty'] = {'0': [], '1': [], '2': []}
-RB = {'RB_None5': [[], [], [], [], []],
+RB = {'RB_Overlap3': [[], [1], [2, 1]],
+      'RB_None5': [[], [], [], [], []],
       'RB_Diamond5': [[], [], [2], [2], [3, 4]],
       'RB_One': [[]], 'RB_Two': [[], [1]], 'RB_None3': [[], [], []],
       'RB_None4': [[], [], [], []], 'RB_Chain3': [[], [1], [2]]}
@@ -86,6 +87,16 @@ EMPTYSPEC = cfgd(NS=2, InitSBases='<-SB_Empty', Muts='{"reg","unreg"}',
                  Queries='{"lookup","lookupAll"}', RegKeys='<-RegKeysEmpty',
                  LookKeys='<-LookKeysEmpty', MaxLive=2, MaxDepth=5)
 
+OVERLAP = cfgd(NS=1, NG=3, InitSBases='<-SB_One', InitRBases='<-RB_Overlap3',
+               Names='<-NamesE', Muts='{"reg","unreg","regbases"}',
+               Queries='{"lookup"}', RegKeys='<-RegKeysChain',
+               LookKeys='<-LookKeysChain', MaxLive=2, MaxDepth=5,
+               RBaseChoices='<-RBaseChoicesOverlap')
+SUBSIB = cfgd(NS=1, InitSBases='<-SB_One', Names='<-NamesE',
+              Muts='{"sub","unsub"}', Queries='{"subs"}',
+              SubKeys='<-SubKeysSib', LookKeys='<-LookKeysSib', MaxLive=3,
+              MaxDepth=5)
+
 INVS = ['TypeOK', 'ExtOK', 'InvWalkIsBest', 'InvEntryPointsAgree',
         'InvSubsExact', 'CacheTransparent', 'RoIsFresh']
 
@@ -118,6 +129,8 @@ PLAN = {
              dict(sb='SB_Diamond', rb='RB_Two', num=200, depth=15)),
             ('subcache d5', 'edges', SUBCACHE,
              dict(sb='SB_One', rb='RB_Two', eq12=True)),
+            ('sibling provided d5', 'edges', SUBSIB,
+             dict(sb='SB_One', rb='RB_One')),
         ],
         'thorough': [
             ('subs<=3', 'states', dict(SUBS, MaxLive=3),
@@ -158,6 +171,9 @@ PLAN = {
              dict(sb='SB_Three', rb='RB_One')),
             ('empty declaration d5 push', 'edges', EMPTYSPEC,
              dict(sb='SB_Empty', rb='RB_One', empty_spec=2)),
+            ('entry points x cache d6 verify', 'edges',
+             dict(EPCACHE, Flavour='"verify"'),
+             dict(sb='SB_One', rb='RB_Two')),
             # re-basing of a registry ABOVE the one that is asked, followed by
             # a mutation of the asked registry itself (three registries)
             ('chain d5 verify', 'edges', dict(CHAIN, Flavour='"verify"'),
@@ -207,6 +223,11 @@ PLAN = {
              dict(sb='SB_One', rb='RB_Chain3')),
             ('diamond5 d4 push', 'edges', DIAMOND,
              dict(sb='SB_One', rb='RB_Diamond5', components=True)),
+            ('overlapping bases d5 push', 'edges', OVERLAP,
+             dict(sb='SB_One', rb='RB_Overlap3', components=True)),
+            ('overlapping bases sim push', 'sim',
+             dict(OVERLAP, MaxDepth=100),
+             dict(sb='SB_One', rb='RB_Overlap3', num=200, depth=12)),
             # histories (transition coverage uses shortest prefixes, and an
             # operation that leaves the abstract state unchanged, such as
             # rebuild(), is never on one)
@@ -470,11 +491,14 @@ def run(pid, tier, v, build, plan=None):
 
 
 C10_PLAN = {
-    'quick': [PLAN['C05']['quick'][2], PLAN['C05']['quick'][3],
+    'quick': [q for q in PLAN['C05']['quick'] if q[1] == 'sim'] + [
+              q for q in PLAN['C06']['quick'] if q[0] == 'chain3 sim verify'
+              ] + [
               ('books-sim', 'sim', dict(BOOKS, MaxLive=5, MaxDepth=100),
                dict(sb='SB_Chain2', rb='RB_One', eq12=True, num=150,
                     depth=25))],
-    'thorough': PLAN['C05']['thorough'][2:] + PLAN['C06']['thorough'][4:] + [
+    'thorough': [q for q in PLAN['C05']['thorough'] if q[1] == 'sim'] + [
+        q for q in PLAN['C06']['thorough'] if q[1] == 'sim'] + [
         ('books-sim', 'sim', dict(BOOKS, MaxLive=5, MaxDepth=100),
          dict(sb='SB_Chain2', rb='RB_One', eq12=True, num=3000, depth=25))],
 }
